@@ -368,17 +368,25 @@ func TestVerifC03SignRecover(t *testing.T) {
 		id := n
 		key, d := c03Key(rt)
 		addr := crypto.PubkeyToAddress(key.PublicKey)
-		typ := byte(rapid.IntRange(0, 4).Draw(rt, "txType"))
-
-		// chain id and signer
-		pool := c03ChainIDs
-		if typ <= DynamicFeeTxType && rapid.IntRange(0, 7).Draw(rt, "hugeChain") == 0 {
-			pool = c03HugeChainIDs
+		// chain id and signer first, then a tx type the signer supports (80%) or any type (20%);
+		// chain ids beyond 256 bits only go with the types that carry a big.Int chain id.
+		pool, maxTyp := c03ChainIDs, SetCodeTxType
+		if rapid.IntRange(0, 9).Draw(rt, "hugeChain") == 0 {
+			pool, maxTyp = c03HugeChainIDs, DynamicFeeTxType
 		}
 		chain := pool[rapid.IntRange(0, len(pool)-1).Draw(rt, "chain")]
 		sc := c03DrawSigner(rt, chain, "signer")
-		if sc.rank >= c03Cancun && chain.Cmp(c03Two256) >= 0 && typ > DynamicFeeTxType {
-			rt.Fatalf("VERIF-HARNESS-BUG: huge chain id with uint256 tx type")
+		var typ byte
+		if rapid.IntRange(0, 4).Draw(rt, "anyType") == 0 {
+			typ = byte(rapid.IntRange(0, maxTyp).Draw(rt, "txType"))
+		} else {
+			hi := 0
+			for t := 0; t <= maxTyp; t++ {
+				if c03MinRank(byte(t)) <= sc.rank {
+					hi = t
+				}
+			}
+			typ = byte(rapid.IntRange(0, hi).Draw(rt, "txTypeSupported"))
 		}
 
 		// chain id stored in the body of typed txs: unspecified / same / foreign
